@@ -16,7 +16,8 @@ EXPLANATION = (
     "truth-table evaluation over {no best yet, candidate <, ==, > best} x {candidate valid, invalid} shows to be "
     "exactly 'valid and (no best or strictly smaller)'; index, position and match object are updated atomically "
     "in that block; start/match/end/return are coherent after the loop; do_search copies after/match/match_index "
-    "from the same search; compile_pattern_list and expect_exact keep the list aligned 1:1 with the user's list. "
+    "from the same search, and before/after tile the pending text so that before ends exactly where the reported "
+    "occurrence starts (D7, the linear slice algebra of C01-D6); compile_pattern_list and expect_exact keep the list aligned 1:1 with the user's list. "
     "NOT decided: that str.find / re.search report genuine occurrences (library), zero-width semantics.")
 TRUSTED = ["str/bytes.find and re.Pattern.search return the leftmost occurrence at or after the given position",
            "enumerate / for-loop order over lists", "sa/ engine"]
@@ -116,6 +117,9 @@ def run(R):
         check_copy(c, repo)
     with R.clause('D5', 'ONCE', floor=5, desc='compiled pattern lists stay aligned 1:1 with the caller\'s list') as c:
         check_alignment(c, repo)
+    with R.clause('D7', 'ALG', floor=6, desc='before ends exactly where the reported occurrence starts; after is that occurrence (shared with C01-D6)') as c:
+        from .c01 import check_match_tiling
+        check_match_tiling(c, repo)
     with R.clause('D6', 'COVER', floor=8, desc='no earlier occurrence is skipped: look-back and freshlen cover the searched text (shared with C03-D1/D3)') as c:
         from .c03 import check_find_offset, check_freshlen
         check_find_offset(c, repo)
@@ -521,6 +525,7 @@ MUTANTS = [
      "        for n, s in enumerate(patterns):\n            if s is EOF:\n                self.eof_index = n\n                continue\n            if s is TIMEOUT:\n                self.timeout_index = n\n                continue\n            self._searches.append((s, n))", 'D1'),
 ]
 MUTANTS += [
+    ('before-minus-unmatched', 'expect', "            spawn.before = before[\n                0:len(before) - (len(window) - searcher.start)]", "            unmatched = len(window) - searcher.start\n            spawn.before = before[:-unmatched]", 'D7'),
     ('str-marker-falls-through', 'expect', "            if s is EOF:\n                self.eof_index = n\n                continue\n            if s is TIMEOUT:\n                self.timeout_index = n\n                continue\n            self._strings.append((n, s))", "            if s is EOF:\n                self.eof_index = n\n            if s is TIMEOUT:\n                self.timeout_index = n\n                continue\n            self._strings.append((n, s))", 'D1'),
     ('re-shrinking-end', 'expect', "            match = s.search(buffer, searchstart)\n", "            match = s.search(buffer, searchstart, len(buffer) if first_match is None else the_match.end())\n", 'D2'),
     ('existing-freshlen-buf', 'expect', "        freshlen = before_len\n", "        freshlen = buf_len\n", 'D6'),
